@@ -8,7 +8,7 @@
 (* name), title, default/enum/const (tagged JSON values, see JsonVal),     *)
 (* bool (the boolean schemas).                                             *)
 (***************************************************************************)
-EXTENDS TLC, Sequences, FiniteSets, Integers
+EXTENDS TLC, Sequences, FiniteSets, Integers, SequencesExt
 
 SHas(S, k) == k \in DOMAIN S
 
@@ -20,9 +20,12 @@ SNum   == [type |-> "number"]
 SBool  == [type |-> "boolean"]
 SNull  == [type |-> "null"]
 SRef(n) == [ref |-> n]
-SObj(props, req) == [type |-> "object", properties |-> props, required |-> req]
-SObjClosed(props, req) == [type |-> "object", properties |-> props, required |-> req,
+(* "required" is kept as a sequence (that is how it comes back from a JSON
+   trace); the constructors take a set for convenience *)
+SObj(props, req) == [type |-> "object", properties |-> props, required |-> SetToSeq(req)]
+SObjClosed(props, req) == [type |-> "object", properties |-> props, required |-> SetToSeq(req),
                            additionalProperties |-> SFalse]
+ReqSet(S) == IF SHas(S, "required") THEN { S.required[i] : i \in DOMAIN S.required } ELSE {}
 SMap(vs) == [type |-> "object", additionalProperties |-> vs]
 SArr(s) == [type |-> "array", items |-> s]
 SSet(s) == [type |-> "array", items |-> s, uniqueItems |-> TRUE]
